@@ -5,6 +5,8 @@ mod engine;
 mod c02;
 mod c03;
 mod c04;
+mod c05;
+mod c06;
 mod c07;
 mod c08;
 mod c11;
@@ -16,6 +18,7 @@ mod c20;
 mod hostile;
 mod refre;
 mod refsgr;
+mod refvt;
 mod ttyout;
 
 use engine::{Property, Tier};
@@ -87,6 +90,8 @@ fn main() {
         "C02" => dispatch(c02::C02, &mode),
         "C03" => dispatch(c03::C03, &mode),
         "C04" => dispatch(c04::C04, &mode),
+        "C05" => dispatch(c05::C05, &mode),
+        "C06" => dispatch(c06::C06, &mode),
         "C07" => dispatch(c07::C07, &mode),
         "C08" => dispatch(c08::C08, &mode),
         "C11" => dispatch(c11::C11, &mode),
